@@ -8,13 +8,15 @@ namespace coloquinte {
 DetailedPlacement DetailedPlacement::fromIspdCircuit(const Circuit &circuit) {
   // Represent fixed cells with -1 width so they are not considered
   int rowHeight = circuit.rowHeight();
-  std::vector<int> widths = circuit.cellWidth_;
+  // Use the placed sizes, since the orientation may exchange width and height
+  std::vector<int> widths;
   std::vector<Rectangle> obstacles;
   for (int c = 0; c < circuit.nbCells(); ++c) {
+    widths.push_back(circuit.placedWidth(c));
     if (circuit.cellIsFixed_[c]) {
       widths[c] = -1;
     }
-    if (circuit.cellHeight_[c] != rowHeight) {
+    if (circuit.placedHeight(c) != rowHeight) {
       widths[c] = -1;
       Rectangle pl = circuit.placement(c);
       obstacles.push_back(pl);
@@ -42,7 +44,7 @@ DetailedPlacement DetailedPlacement::fromIspdCircuit(const Circuit &circuit,
       continue;
     }
     Rectangle pl = circuit.placement(c);
-    if (circuit.cellHeight_[c] != rowHeight) {
+    if (circuit.placedHeight(c) != rowHeight) {
       obstacles.push_back(pl);
     } else if (region.contains(pl)) {
       cellIndex.push_back(c);
@@ -82,7 +84,7 @@ DetailedPlacement DetailedPlacement::fromIspdCircuit(const Circuit &circuit,
   std::vector<CellRowPolarity> cellPolarity(cellIndex.size());
   for (size_t i = 0; i < cellIndex.size(); ++i) {
     int c = cellIndex[i];
-    widths[i] = circuit.cellWidth()[c];
+    widths[i] = circuit.placedWidth(c);
     cellX[i] = circuit.cellX()[c];
     cellY[i] = circuit.cellY()[c];
     cellOrientation[i] = circuit.cellOrientation()[c];
